@@ -106,6 +106,7 @@ static inline void myth_block_on_queue(myth_sleep_queue_t * q,
   }
   /* now save the current context, myth_sleep_queue_enq_th(q, cur)
      to put cur in the q, and jump to next_ctx */
+  MYTH_VERIF_POINT(BQ_BEFORE_SWITCH);
   myth_swap_context_withcall(&cur->context, next_ctx,
 			     myth_block_on_queue_cb, q, cur, m);
 }
@@ -158,6 +159,7 @@ static inline void myth_block_on_stack(myth_sleep_stack_t * s,
   }
   /* now save the current context, myth_sleep_queue_enq_th(q, cur)
      to put cur in the q, and jump to next_ctx */
+  MYTH_VERIF_POINT(BS_BEFORE_SWITCH);
   myth_swap_context_withcall(&cur->context, next_ctx,
 			     myth_block_on_stack_cb, s, cur, m);
 }
@@ -1134,6 +1136,7 @@ static inline int myth_uncond_wait_body(myth_uncond_t * u) {
   }
   /* now save the current context, myth_sleep_queue_enq_th(q, cur)
      to put cur in the q, and jump to next_ctx */
+  MYTH_VERIF_POINT(UNC_BEFORE_SWITCH);
   myth_swap_context_withcall(&cur->context, next_ctx,
 			     myth_uncond_wait_cb, u, cur, 0);
   return 0;
